@@ -215,12 +215,15 @@ theorem SInv_frame {s s' : St} {i : Nat} {t t' : Task} (hinv : SInv s) (ht : s.t
 theorem sinv_idle {s s' : St} {i p : Nat} {prog held} (hinv : SInv s) (ht : s.tasks[i]? = some ⟨.idle, prog, held⟩)
     (hstep : stepTask s i ⟨.idle, prog, held⟩ p = some s') : SInv s' := by
   simp only [stepTask] at hstep
+  split at hstep
+  · simp only [Option.some.injEq] at hstep; subst hstep
+    exact SInv_frame hinv ht rfl (Or.inl rfl) ⟨rfl, rfl, fun _ => rfl⟩ rfl (by simp) trivial
   cases prog with
   | nil =>
     simp at hstep; subst hstep
     exact SInv_frame hinv ht rfl (Or.inl rfl) ⟨rfl, rfl, fun _ => rfl⟩ rfl (by simp) trivial
   | cons op rest =>
-    cases op <;> cases held <;> simp at hstep <;> subst hstep <;>
+    cases op <;> cases held <;> simp at hstep <;> (try split at hstep) <;> (try simp at hstep) <;> subst hstep <;>
       exact SInv_frame hinv ht rfl (Or.inl rfl) ⟨rfl, rfl, fun _ => rfl⟩ rfl (by simp) trivial
 
 
